@@ -409,6 +409,88 @@ func (m *mon) variants(cs consensus.State, orig types.Block) []variant {
 		}
 	}
 
+	// ---- v1 inputs naming the ID of an element of ANOTHER kind that the block touched earlier.
+	// MidState keeps one id->index map for all kinds; the input is then resolved to whatever
+	// siacoin / siafund / contract element happens to sit at that index. An element spent or
+	// resolved under its own ID and again under the borrowed ID is a second use.
+	if v1ok && len(orig.Transactions) > 0 {
+		scs, sfs, fcs := c.V1MidDiffs(orig)
+		type alias struct {
+			id   [32]byte
+			kind string
+		}
+		aliasesAt := func(j int, want string) []alias {
+			var as []alias
+			if want != "siacoin" && j < len(scs) {
+				as = append(as, alias{[32]byte(scs[j].SiacoinElement.ID), "siacoin"})
+			}
+			if want != "siafund" && j < len(sfs) {
+				as = append(as, alias{[32]byte(sfs[j].SiafundElement.ID), "siafund"})
+			}
+			if want != "contract" && j < len(fcs) {
+				as = append(as, alias{[32]byte(fcs[j].FileContractElement.ID), "contract"})
+			}
+			return as
+		}
+		nAlias := 0
+		for j, d := range scs {
+			e := d.SiacoinElement
+			l := c.W.Locks[e.SiacoinOutput.Address]
+			if l == nil || l.UC == nil || !l.SpendableV1(h) || e.SiacoinOutput.Value.IsZero() || e.MaturityHeight > h || nAlias >= 4 {
+				continue
+			}
+			for _, a := range aliasesAt(j, "siacoin") {
+				b := chaingen.CloneBlock(orig)
+				b.Transactions = append(b.Transactions, c.NewV1Spend(cs, types.SiacoinOutputID(a.id), e.SiacoinOutput.Value, l, dest))
+				name := "alias/v1-siacoin-spent-in-block-respent-under-in-block-" + a.kind + "-id"
+				if !d.Spent {
+					// created and still unspent: spend it under the borrowed ID and under its own
+					b.Transactions = append(b.Transactions, c.NewV1Spend(cs, e.ID, e.SiacoinOutput.Value, l, dest))
+					name = "alias/v1-siacoin-created-in-block-spent-under-in-block-" + a.kind + "-id-and-own-id"
+				}
+				add(name, b)
+				nAlias++
+			}
+		}
+		for j, d := range sfs {
+			e := d.SiafundElement
+			l := c.W.Locks[e.SiafundOutput.Address]
+			if l == nil || l.UC == nil || !l.SpendableV1(h) || e.SiafundOutput.Value == 0 || nAlias >= 8 {
+				continue
+			}
+			for _, a := range aliasesAt(j, "siafund") {
+				b := chaingen.CloneBlock(orig)
+				b.Transactions = append(b.Transactions, c.NewV1SFSpend(cs, types.SiafundOutputID(a.id), e.SiafundOutput.Value, *l.UC, dest))
+				name := "alias/v1-siafund-spent-in-block-respent-under-in-block-" + a.kind + "-id"
+				if !d.Spent {
+					b.Transactions = append(b.Transactions, c.NewV1SFSpend(cs, e.ID, e.SiafundOutput.Value, *l.UC, dest))
+					name = "alias/v1-siafund-created-in-block-spent-under-in-block-" + a.kind + "-id-and-own-id"
+				}
+				add(name, b)
+				nAlias++
+			}
+		}
+		// a storage proof repeated under a borrowed ID
+		for i := range orig.Transactions {
+			t := &orig.Transactions[i]
+			for _, sp := range t.StorageProofs {
+				for j, d := range fcs {
+					if d.FileContractElement.ID != sp.ParentID {
+						continue
+					}
+					for _, a := range aliasesAt(j, "contract") {
+						sp2 := chaingen.CloneV1(*t).StorageProofs[0]
+						sp2.ParentID = types.FileContractID(a.id)
+						b := chaingen.CloneBlock(orig)
+						b.Transactions = append(b.Transactions, types.Transaction{StorageProofs: []types.StorageProof{sp2}})
+						add("alias/v1-storage-proof-repeated-under-in-block-"+a.kind+"-id", b)
+					}
+				}
+				break
+			}
+		}
+	}
+
 	// ---- v2
 	for i := range orig.V2Transactions() {
 		t := &orig.V2.Transactions[i]
